@@ -53,8 +53,9 @@ def matrix_case(draw, tier):
 
 
 def strategy(tier):
-    net = NC.clean_network(maxN=14 if tier == "quick" else 40, minN=4, max_motifs=14 if tier == "quick" else 40).map(
-        lambda n: {"kind": "network", "net": n})
+    net = st.tuples(NC.clean_network(maxN=14 if tier == "quick" else 40, minN=4, max_motifs=14 if tier == "quick" else 40),
+                    st.sampled_from([None, None, None, "", 0])).map(
+        lambda t: {"kind": "network", "net": t[0], "falsy_first_name": t[1]})
     return st.one_of(jdd_case(tier), jdd_case(tier), matrix_case(tier), net)
 
 
@@ -172,8 +173,12 @@ def check_network(case):
     from gcmpy import (JointExcessJointDegree, JointExcessFromEjk, JointExcessfromJDD,
                        JointDegreeDistributionFromNetwork, ToolsNames as TN)
     net = case["net"]
+    if case.get("falsy_first_name") is not None and len(net["topos"]) >= 1 and "names" not in net["topos"][0]:
+        # a topology label may be any value, '' or 0 included
+        net = {**net, "topos": [{**net["topos"][0], "name": case["falsy_first_name"]}] + list(net["topos"][1:])}
     G, jds = NC.build_graph(net)
-    names = NC.names(net)
+    # the names handed to the tools are equal to the edge attributes but separately created objects
+    names = ["".join(list(n)) if isinstance(n, str) else n for n in NC.names(net)]
     P = call("jdd-from-network", JointDegreeDistributionFromNetwork.get_joint_degree_distribution, G)
     N = net["N"]
     want = {}
